@@ -275,6 +275,39 @@ impl DodecahedronProjection {
     }
 }
 
+#[cfg(feature = "verif")]
+impl DodecahedronProjection {
+    pub fn verif_cache_view(&self) -> crate::verif::CacheView {
+        crate::verif::CacheView {
+            instance: self as *const Self as usize,
+            face_slots: self.face_triangles.iter().map(|t| t.is_some()).collect(),
+            spherical_slots: self.spherical_triangles.iter().map(|t| t.is_some()).collect(),
+        }
+    }
+
+    pub fn verif_spherical_triangles(&self) -> Vec<(usize, [[f64; 3]; 3])> {
+        let mut out = Vec::new();
+        for (i, t) in self.spherical_triangles.iter().enumerate() {
+            if let Some(t) = t {
+                let f = |c: Cartesian| [c.x(), c.y(), c.z()];
+                out.push((i, [f(t.a), f(t.b), f(t.c)]));
+            }
+        }
+        out
+    }
+
+    pub fn verif_face_triangles(&self) -> Vec<(usize, [[f64; 2]; 3])> {
+        let mut out = Vec::new();
+        for (i, t) in self.face_triangles.iter().enumerate() {
+            if let Some(t) = t {
+                let f = |c: Face| [c.x(), c.y()];
+                out.push((i, [f(t.a), f(t.b), f(t.c)]));
+            }
+        }
+        out
+    }
+}
+
 impl Default for DodecahedronProjection {
     fn default() -> Self {
         Self::new().expect("Failed to create DodecahedronProjection")
